@@ -235,14 +235,20 @@ func (a *Activation) monitorInv(m *Monitor, owner, mid string, st *State, prove 
 			}
 			continue
 		}
-		v := env.evalBool(c.Expr, c.Src)
 		if prove {
 			a.arith["moninv"]++
-			name := fmt.Sprintf("%s#monitor[%s.%s:%d]", fullName(a.fn), m.Type, labelOr(c.Label, i), a.arith["moninv"])
-			o := t.oblige("monitor", name, c.Label, st.pc, v, posStr(t.eng.fset, pos), c.Expr)
-			o.Fn = fullName(a.fn)
+			parts := splitConj(c.Expr)
+			for pi, part := range parts {
+				v := env.evalBool(part, c.Src)
+				name := fmt.Sprintf("%s#monitor[%s.%s:%d]", fullName(a.fn), m.Type, labelOr(c.Label, i), a.arith["moninv"])
+				if len(parts) > 1 {
+					name = fmt.Sprintf("%s#monitor[%s.%s:%d/%d]", fullName(a.fn), m.Type, labelOr(c.Label, i), a.arith["moninv"], pi+1)
+				}
+				o := t.oblige("monitor", name, c.Label, st.pc, v, posStr(t.eng.fset, pos), part)
+				o.Fn = fullName(a.fn)
+			}
 		} else {
-			t.assume(st.pc, v)
+			t.assume(st.pc, env.evalBool(c.Expr, c.Src))
 		}
 	}
 }
